@@ -68,6 +68,8 @@ def run(tier, seed):
     obs += guarded("C01.engine.envelope.guard_moments@L67", lambda: envelope.guard_moments("C01", "Variance", ["mean", "population_variance", "sample_variance", "variance_of_mean", "error"],
                                   "src/moments/variance.rs::Variance (add-only histories)"))
     obs += guarded("C01.engine.envelope.guard_moments@L69", lambda: envelope.guard_moments("C01", "Mean", ["mean"], "src/moments/mean.rs::Mean (add-only histories)"))
+    import rs_crosscheck
+    obs += guarded("C01.engine.rs_crosscheck", lambda: rs_crosscheck.crosscheck("C01", ['Mean', 'Variance']))
     meta = {
         "level": "proof",
         "checker_cmd": "./check C01 (rsx -> RS executor -> sympy normal form / z3 %s QF_NRA; verus history.rs)" % __import__("backends").Z3_VERSION,
